@@ -18,17 +18,19 @@ git apply $SD/patch.diff || { echo "RESULT $P/$V patch-does-not-apply"; exit 1; 
 # existing tests with the change (demo removed)
 rm -f $WT/$DEST/seed_*_test.go
 for f in $SD/demo/*_test.go; do rm -f $WT/$DEST/$(basename $f); done
+if grep -q '^diff --git a/core/' $SD/patch.diff; then export SEED_TOUCHES_CORE=1; else export SEED_TOUCHES_CORE=0; fi
 flock /tmp/seed-suite.lock python3 - "$WT" > /tmp/seedc-$P-$V-suite.log 2>&1 <<'PY'
 import json,subprocess,sys,os
 wt=sys.argv[1]
 passed=set()
-for m in ('core','server'):
+mods=('core','server') if os.environ.get('SEED_TOUCHES_CORE')=='1' else ('server',)
+for m in mods:
     p=subprocess.run(['go','test','-json','-vet=off','-count=1','-timeout','25m','./...'],cwd=os.path.join(wt,m),stdout=subprocess.PIPE,stderr=subprocess.DEVNULL,text=True)
     for l in p.stdout.splitlines():
         try: e=json.loads(l)
         except Exception: continue
         if e.get('Action')=='pass' and e.get('Test'): passed.add(e['Package']+'::'+e['Test'])
-base=set(json.load(open('/root/.vp/BASELINE.json'))['stable_pass'])
+base=set(x for x in json.load(open('/root/.vp/BASELINE.json'))['stable_pass'] if any('/milvus-cdc/'+m+'/' in x for m in mods))
 missing=sorted(base-passed)
 print('SUITE missing=%d'%len(missing))
 for x in missing[:20]: print('  MISSING',x)
